@@ -124,6 +124,11 @@ def c_check_cache(tin: List[int], tout: List[int], out1_exists: bool,
         # ... and so are the directories that were walked: they become the regeneration triggers
         # (.bfg_find_deps) of the build files about to be written
         ok = ok and Path('s', Root.srcdir, directory=True) in ctx.build['find_dirs']
+    else:
+        # an explicit input (the script itself) changed: the regeneration must behave like a
+        # fresh configure, so nothing of the old cache -- filters the edited script may no longer
+        # contain, directories it no longer visits -- is carried into it
+        ok = ok and len(ctx.build['find_cache']) == 0 and len(ctx.build['find_dirs']) == 0
     return R(ok)
 
 
